@@ -47,6 +47,7 @@ MUTANTS = {
         m("context-hash-after-dedup", S, "        context = job.get_context()\n        if context:\n            job.context_hash = self.type_registry.get_hash(context)\n\n        # Replace a placeholder", "        # Replace a placeholder", "C05.4"),
     ],
     "C06": [
+        m("dedup-short-circuited", S, "        if self._check_pending_job(job) is not None:", "        if job.parent_job and self._check_pending_job(job) is not None:", "C06.1"),
         m("store-after-submit", S, "        self._pending_jobs[(job.eval_hash, job.context_hash)] = job\n\n        # Submit job.\n        if not job.task.script:\n            executor.submit(job)\n        else:\n            executor.submit_script(job)", "        # Submit job.\n        if not job.task.script:\n            executor.submit(job)\n        else:\n            executor.submit_script(job)\n        self._pending_jobs[(job.eval_hash, job.context_hash)] = job", "C06.1"),
         m("finalize-before-resolve", S, "        job.resolve(result)\n        self._finalize_job(job)", "        self._finalize_job(job)\n        job.resolve(result)", "C06.3"),
         m("early-return-before-registration", S, "                promise = Promise.all([args_promise, default_kwargs_promise]).then(args_then)\n", "                return Promise.all([args_promise, default_kwargs_promise]).then(args_then)\n", "C06.4"),
@@ -64,10 +65,12 @@ MUTANTS = {
         m("off-by-one-limit", S, "- self.limits_used[limit_name] - count >= 0", "- self.limits_used[limit_name] - count >= -1", "C08.1"),
         m("default-limit-2", S, "self.limits.get(limit_name, 1)", "self.limits.get(limit_name, 2)", "C08.1"),
         m("foreign-write-limits_used", S, "    def clear(self):\n        \"\"\"Release resources\"\"\"\n", "    def clear(self):\n        \"\"\"Release resources\"\"\"\n        self.limits_used.clear()\n", "C08.3"),
-        m("flag-not-cleared", S, "            if job.limits_held:\n                job.limits_held = False\n                self._release_resources(job.get_limits())", "            if job.limits_held:\n                self._release_resources(job.get_limits())", None),
+        m("flag-not-cleared-in-done", S, "        if job.limits_held:\n            job.limits_held = False\n            self._release_resources(job.get_limits())\n            self._check_jobs_pending_limits()\n\n        assert job.task\n        assert job.eval_hash", "        if job.limits_held:\n            self._release_resources(job.get_limits())\n            self._check_jobs_pending_limits()\n\n        assert job.task\n        assert job.eval_hash", "C08.2"),
         m("list-limits-two-units", S, "limits = {limit_name: 1 for limit_name in limits}", "limits = {limit_name: 2 for limit_name in limits}", "C08.4"),
     ],
     "C09": [
+        m("collapse-exit-without-wake", S, "            # This job does not consume any resources. If it was nominated to run after waiting\n            # for resource limits, the resources set aside for it are free for other waiting jobs.\n            self._check_jobs_pending_limits()\n            return", "            return", "C09.5"),
+        m("queue-scan-skipped", S, "        ready_jobs: list[tuple[Job, tuple[tuple, dict]]] = []\n        not_ready_jobs", "        if not self.limits:\n            return\n        ready_jobs: list[tuple[Job, tuple[tuple, dict]]] = []\n        not_ready_jobs", "C09.3"),
         m("no-wake-after-release", S, "                self._release_resources(job.get_limits())\n                self._check_jobs_pending_limits()\n", "                self._release_resources(job.get_limits())\n", "C09.1"),
         m("waitq-drop", S, "                self._add_job_pending_limits(job, eval_args)\n                return", "                return", "C09.2"),
         m("not-ready-dropped", S, "            else:\n                not_ready_jobs.append((job, eval_args))", "            else:\n                pass", "C09.3"),
@@ -82,6 +85,7 @@ MUTANTS = {
         m("monitor-uncaught", JA, "        except Exception as error:\n            # Since we run this method at the top level of a thread, we need to\n            # catch all exceptions so we can properly report them to the\n            # scheduler.\n            self._on_error(error)", "        except KeyError as error:\n            self._on_error(error)", "C11.3"),
     ],
     "C12": [
+        m("pickle-fallback-narrowed", S, "                except (TypeError, AttributeError):", "                except (ValueError, AttributeError):", "C12.3"),
         m("error-replayed", S, "        elif isinstance(result, ErrorValue):\n            # Errors can't be used from the backend cache.\n            return None, False, None\n", "", "C12.1"),
         m("swallowed-chain", S, "            return scheduler.evaluate(cached_expr, parent_job=parent_job).catch(promise_catch)", "            scheduler.evaluate(cached_expr, parent_job=parent_job).then(lambda r: r)\n            return scheduler.evaluate(cached_expr, parent_job=parent_job).catch(promise_catch)", "C12.2"),
         m("reject-finalize-first", S, "            job.reject(error)\n            self._finalize_job(job)", "            self._finalize_job(job)\n            job.reject(error)", "C12.3"),
@@ -104,6 +108,7 @@ MUTANTS = {
         m("no-end-marker", B, "    for item in iterable:\n        bencode(item, f)\n    f.write(_TYPE_END)", "    for item in iterable:\n        bencode(item, f)", "C14.2"),
     ],
     "C15": [
+        m("defaults-fast-path", S, "    default_kwargs = {}\n\n    sig = task.signature\n", "    default_kwargs = {}\n\n    sig = task.signature\n    if len(args) + len(kwargs) >= len(sig.parameters):\n        return default_kwargs\n", "C15.4"),
         m("zip-all-params", T, "        for arg_name, arg_value in zip(positional_param_names, args)", "        for arg_name, arg_value in zip(sig.parameters, args)", "C15.4"),
         m("reuse-eval-tag", H, "            \"TaskArguments\",", "            \"Eval\",", "C15.1"),
         m("kwargs-dropped-from-key", T, "    return hash_eval(type_registry, task.hash, args2, kwargs2)", "    return hash_eval(type_registry, task.hash, args2, {})", "C15.2"),
@@ -258,7 +263,7 @@ MUTANTS = {
     "C36": [
         m("drop-column-in-upgrade", "redun/backends/db/alembic/versions/0bee3d6dba76_add_updated_time_field.py", "        batch_op.add_column(sa.Column(\"updated_time\", DateTimeUTC(timezone=True), nullable=True))", "        batch_op.add_column(sa.Column(\"updated_time\", DateTimeUTC(timezone=True), nullable=True))\n        batch_op.drop_column(\"args\")", "C36.2"),
         m("chain-order-swapped", D, "    DBVersionInfo(\"eb7b95e4e8bf\", 3, 2, \"Remove length restriction on value type names.\"),\n    DBVersionInfo(\"f68b3aaee9cc\", 3, 3, \"Add job and value indexes.\"),", "    DBVersionInfo(\"f68b3aaee9cc\", 3, 2, \"Add job and value indexes.\"),\n    DBVersionInfo(\"eb7b95e4e8bf\", 3, 3, \"Remove length restriction on value type names.\"),", "C36.1"),
-        m("model-column-without-migration", D, "class Evaluation(Base):\n    __tablename__ = \"evaluation\"\n", "class Evaluation(Base):\n    __tablename__ = \"evaluation\"\n    note = Column(String)\n", "C36.3"),
+        m("model-column-without-migration", D, "    __tablename__ = \"evaluation\"\n", "    __tablename__ = \"evaluation\"\n    note = Column(String)\n", "C36.3"),
         m("delete-rows-in-upgrade", "redun/backends/db/alembic/versions/f68b3aaee9cc_add_job_and_value_indexes.py", "def upgrade():\n", "def upgrade():\n    op.execute(\"delete from evaluation where value_hash is null\")\n", "C36.2"),
     ],
     "C37": [
@@ -275,6 +280,6 @@ MUTANTS = {
         m("shared-expressions", S, "        expr_eval = pickle_loads(pickle_dumps(expr_eval))\n", "", "C38.2"),
     ],
     "C10": [
-        m("new-executor-unlocked", "redun/executors/alias.py", "class AliasExecutor(Executor):", "import threading\n\n\nclass PollingExecutor(Executor):\n    def __init__(self):\n        self.is_running = False\n        self.pending = {}\n        self._thread = None\n\n    def _start(self):\n        if not self.is_running:\n            self.is_running = True\n            self._thread = threading.Thread(target=self._monitor)\n            self._thread.start()\n\n    def _monitor(self):\n        try:\n            while self.is_running and self.pending:\n                pass\n        except Exception as error:\n            self._scheduler.reject_job(None, error)\n        self.is_running = False\n\n\nclass AliasExecutor(Executor):", None),
+        m("new-executor-unlocked", "redun/executors/alias.py", "@register_executor(\"alias\")\nclass AliasExecutor(Executor):", "import threading\n\n\nclass PollingExecutor(Executor):\n    def __init__(self):\n        self.is_running = False\n        self.pending = {}\n        self._thread = None\n\n    def _start(self):\n        if not self.is_running:\n            self.is_running = True\n            self._thread = threading.Thread(target=self._monitor)\n            self._thread.start()\n\n    def _monitor(self):\n        try:\n            while self.is_running and self.pending:\n                pass\n        except Exception as error:\n            self._scheduler.reject_job(None, error)\n        self.is_running = False\n\n\n@register_executor(\"alias\")\nclass AliasExecutor(Executor):", None),
     ],
 }
